@@ -23,23 +23,24 @@ import (
 )
 
 type jsRequest struct {
-	rejoin   bool
-	known    bool
-	nwkKey   lw.AES128Key
-	appKey   lw.AES128Key
-	nonce    int
-	sender   string
-	receiver string
-	txid     uint32
-	phy      []byte
-	devEUI   lw.EUI64
-	devAddr  lw.DevAddr
-	dls      lw.DLSettings
-	rxDelay  int
-	cfList   []byte
-	nsKEK    []byte
-	asLabel  bool
-	asKEK    []byte
+	rejoin     bool
+	known      bool
+	lookupFail int // 1: GetKEKByLabel(SenderID), 2: GetASKEKLabelByDevEUI, 3: GetKEKByLabel(AS label) return an error
+	nwkKey     lw.AES128Key
+	appKey     lw.AES128Key
+	nonce      int
+	sender     string
+	receiver   string
+	txid       uint32
+	phy        []byte
+	devEUI     lw.EUI64
+	devAddr    lw.DevAddr
+	dls        lw.DLSettings
+	rxDelay    int
+	cfList     []byte
+	nsKEK      []byte
+	asLabel    bool
+	asKEK      []byte
 }
 
 func parseJSRequest(r *tokReader) (*jsRequest, error) {
@@ -49,8 +50,17 @@ func parseJSRequest(r *tokReader) (*jsRequest, error) {
 		return nil, err
 	}
 	q.rejoin = k == "R"
-	if q.known, err = r.boolean(); err != nil {
+	// 0 = unknown device, 1 = known, 2..4 = known, but the KEK / label lookup number (known - 1) fails
+	kv, err := r.u64()
+	if err != nil {
 		return nil, err
+	}
+	if kv > 4 {
+		return nil, fmt.Errorf("known flag")
+	}
+	q.known = kv >= 1
+	if kv >= 2 {
+		q.lookupFail = int(kv - 1)
 	}
 	if q.nwkKey, err = r.key(); err != nil {
 		return nil, err
@@ -126,7 +136,7 @@ const jsASLabel = "as-kek-label"
 
 // one handler serving a set of requests: devices keyed by DevEUI, KEKs by label
 func newJSHandler(reqs []*jsRequest) (*jsHandlerEnv, error) {
-	env := &jsHandlerEnv{devices: map[lw.EUI64]joinserver.DeviceKeys{}, keks: map[string][]byte{}, asLabels: map[lw.EUI64]string{}}
+	env := &jsHandlerEnv{devices: map[lw.EUI64]joinserver.DeviceKeys{}, keks: map[string][]byte{}, asLabels: map[lw.EUI64]string{}, failKEK: map[string]bool{}, failLabel: map[lw.EUI64]bool{}}
 	for _, q := range reqs {
 		if q.known {
 			env.devices[q.devEUI] = joinserver.DeviceKeys{DevEUI: q.devEUI, NwkKey: q.nwkKey, AppKey: q.appKey, JoinNonce: q.nonce}
@@ -134,12 +144,21 @@ func newJSHandler(reqs []*jsRequest) (*jsHandlerEnv, error) {
 		if len(q.nsKEK) > 0 {
 			env.keks[q.sender] = q.nsKEK
 		}
+		l := jsASLabel + "-" + q.devEUI.String()
 		if q.asLabel {
-			l := jsASLabel + "-" + q.devEUI.String()
 			env.asLabels[q.devEUI] = l
 			if len(q.asKEK) > 0 {
 				env.keks[l] = q.asKEK
 			}
+		}
+		switch q.lookupFail {
+		case 1:
+			env.failKEK[q.sender] = true
+		case 2:
+			env.failLabel[q.devEUI] = true
+		case 3:
+			env.asLabels[q.devEUI] = l
+			env.failKEK[l] = true
 		}
 	}
 	h, err := joinserver.NewHandler(joinserver.HandlerConfig{
@@ -149,8 +168,18 @@ func newJSHandler(reqs []*jsRequest) (*jsHandlerEnv, error) {
 			}
 			return joinserver.DeviceKeys{}, joinserver.ErrDevEUINotFound
 		},
-		GetKEKByLabelFunc:         func(l string) ([]byte, error) { return env.keks[l], nil },
-		GetASKEKLabelByDevEUIFunc: func(e lw.EUI64) (string, error) { return env.asLabels[e], nil },
+		GetKEKByLabelFunc: func(l string) ([]byte, error) {
+			if env.failKEK[l] {
+				return nil, fmt.Errorf("kek store unavailable")
+			}
+			return env.keks[l], nil
+		},
+		GetASKEKLabelByDevEUIFunc: func(e lw.EUI64) (string, error) {
+			if env.failLabel[e] {
+				return "", fmt.Errorf("label store unavailable")
+			}
+			return env.asLabels[e], nil
+		},
 	})
 	if err != nil {
 		return nil, err
@@ -164,10 +193,12 @@ func newJSHandler(reqs []*jsRequest) (*jsHandlerEnv, error) {
 }
 
 type jsHandlerEnv struct {
-	devices  map[lw.EUI64]joinserver.DeviceKeys
-	keks     map[string][]byte
-	asLabels map[lw.EUI64]string
-	serve    func(body []byte) (int, []byte)
+	failKEK   map[string]bool
+	failLabel map[lw.EUI64]bool
+	devices   map[lw.EUI64]joinserver.DeviceKeys
+	keks      map[string][]byte
+	asLabels  map[lw.EUI64]string
+	serve     func(body []byte) (int, []byte)
 }
 
 func (q *jsRequest) body() ([]byte, error) {
@@ -252,7 +283,9 @@ func init() {
 		var netID lw.NetID
 		copy(netID[:], n)
 		h, herr := joinserver.NewHandler(joinserver.HandlerConfig{
-			GetDeviceKeysByDevEUIFunc: func(lw.EUI64) (joinserver.DeviceKeys, error) { return joinserver.DeviceKeys{}, joinserver.ErrDevEUINotFound },
+			GetDeviceKeysByDevEUIFunc: func(lw.EUI64) (joinserver.DeviceKeys, error) {
+				return joinserver.DeviceKeys{}, joinserver.ErrDevEUINotFound
+			},
 			GetHomeNetIDByDevEUIFunc: func(x lw.EUI64) (lw.NetID, error) {
 				if known && x == devEUI {
 					return netID, nil
